@@ -260,6 +260,25 @@ int main(int argc, char** argv)
     prop.gen = genCase;
     prop.run = runCase;
     prop.enumerate = enumerate;
+    // coverage-guided mode: any ids, operation kinds 0..6, bounded length and bounded bursts
+    prop.normalize = [](Case& c) {
+        if (c.ops.size() > 60)
+            c.ops.resize(60);
+        size_t burstTotal = 0;
+        for (auto& op : c.ops)
+        {
+            op.kind = static_cast<uint8_t>(op.kind % 7);
+            op.viaDecoder = op.viaDecoder ? 1 : 0;
+            op.content = static_cast<uint8_t>(op.content % 4);
+            if (op.kind > 1)
+                op.burst = 0;
+            if (op.burst > 1200)
+                op.burst = static_cast<uint16_t>(op.burst % 1201);
+            if (burstTotal + op.burst > 1300)
+                op.burst = 0;
+            burstTotal += op.burst;
+        }
+    };
     prop.enumerationIsExhaustive = true;
     prop.enumerationNote = "all operation sequences up to length 4 (thorough 5) over a 15-operation alphabet (two devices, two interfaces, an unknown "
                            "device, data packet, removals, clear)";
